@@ -78,15 +78,19 @@ def gen_lazy():
         for n in range(0, 6):
             if op != 'if' and n == 0:
                 continue
-            for digits in pats(n):
-                pat = sum(d * 3 ** i for i, d in enumerate(digits))
-                label = ''.join('ENR'[d] for d in digits) or 'none'
+            plist = [(d, False) for d in pats(n)]
+            # parse-poisoned operand (P) in the last position: an unselected operand that does not even parse must not matter
+            if n in (2, 3):
+                plist.append(([1] * (n - 1) + [3], True))
+            for digits, poison in plist:
+                pat = sum(d * 4 ** i for i, d in enumerate(digits))
+                label = ''.join('ENRP'[d] for d in digits) or 'none'
                 efirst = (0 in digits and digits.index(0) < n - 1)
                 tier = 'quick' if ((n <= 2 or (n == 3 and 0 not in digits)) and not efirst) else 'thorough'
                 grp = 'heavy' if efirst else 'medium'
                 h = 'k_c05_%s_%d_%s' % (op, n, label)
-                out3.append('    //@ob name=C05.%s.%d.%s harness=%s props=C05,C04 tier=%s strength=bounded bound="%d operands; outcome pattern %s (E=error, N=new value, R=raw value); truthiness of every value symbolic" fns=op::logic::%s stubs=4 timeout=300 cutdrop=1 group=%s' % (op, n, label, h, tier, n, label, fn, grp))
-                out3.append('    //@ desc="%s over %d operands: result (the deciding operand\'s value itself, or error/null) and the exact evaluation log (which operands, in which order, each at most once, against the outer data) equal the spec; the parser is applied to rule text only; the decision is by truthy"' % (op, n))
+                out3.append('    //@ob name=C05.%s.%d.%s harness=%s props=C05,C04 tier=%s strength=bounded bound="%d operands; outcome pattern %s (E=evaluation error, N=new value, R=raw value, P=does not parse); truthiness of every value symbolic" fns=op::logic::%s stubs=4 timeout=300 cutdrop=1 group=%s' % (op, n, label, h, tier, n, label, fn, grp))
+                out3.append('    //@ desc="%s over %d operands: result (the deciding operand\'s value itself, or error/null) and the exact evaluation log (which operands, in which order, each at most once, against the outer data) equal the spec; an operand that is not needed has no effect even if it is invalid; the parser is applied to rule text only"' % (op, n))
                 out3.append('    lazy_harness!(%s, %d, %d, %s);' % (h, n, pat, body))
     p = os.path.join(VERIF, 'kani', 'op__logic.rs')
     s = open(p).read()
